@@ -13,6 +13,7 @@
  ],
  'unwindset': ['spec_crc_byte.0:9'],
  'complete_unwinding': 'the 8-round loop of the reference is unwound completely (unwinding assertions on)',
+ 'fallback': 'ghost-free',
  'witness': {'unwind': 10},
 } @*/
 #include "vc.h"
@@ -38,8 +39,15 @@ void harness(void)
 
     uint16_t r = igris_crc16(data, n, seed);
 
+#if !VC_FALLBACK
     __CPROVER_assert(g_i == n, "reference folded exactly data[0..n), in order");
     __CPROVER_assert(r == g_reg, "igris_crc16 == reference CRC-16/CCITT of data[0..n) from seed");
+#endif
+#ifdef WITNESS_MODE
+    /* direct reference over the (small, concrete) message: does not depend on the injected ghost fold, so it also
+       decides the bounded fallback run when the loop the ghost statements anchor in has been restructured */
+    __CPROVER_assert(r == (uint16_t)spec_crc_fold(16, 0x1021u, 0, seed, data, n), "igris_crc16 == reference CRC-16/CCITT (direct fold)");
+#endif
     __CPROVER_assert(!(k < n) || data[k] == at_k, "igris_crc16 does not modify the message");
     CANARY("crc16 harness end reachable");
 }
